@@ -4,8 +4,9 @@
   For a visit `toAst fuel idx st used n = ok (s, n', st, used')`:
     * substituting (declared type, value) for the variables of `s` gives back what the tree `n` says
       (`intended st n`) — provided the substitution knows every formatted variable of `n'`;
-    * the formatted variables of `n'` (all depths, pre-order) are exactly the variables used in `s`;
-    * if `n` carries no arguments below level `k`, all formatted variables of `n'` sit in its first `k` levels.
+    * the formatted variables of `n'` (all depths, pre-order) are exactly the variables used in `s`.
+  (Until dfbc7ef a third fact was needed - "no argument below level k => all formatted variables sit in the
+  first k levels" - because `get_formatted_variables` only looked two levels deep; finding C14-F2, fixed.)
 -/
 import AriadneModel.Proofs.C14Store
 
@@ -26,34 +27,6 @@ mutual
   def fmtAllFrags : List Frag → List FVar
     | [] => []
     | .mk _ ns :: fs => fmtAllList ns ++ fmtAllFrags fs
-end
-
-mutual
-  /-- the same, restricted to the first `k` levels -/
-  def fmtDepth : Nat → Node → List FVar
-    | 0, _ => []
-    | k + 1, .obj r subs frags => r.formatted ++ fmtDepthList k subs ++ fmtDepthFrags k frags
-    | _ + 1, .ref _ => []
-  def fmtDepthList : Nat → List Node → List FVar
-    | _, [] => []
-    | k, n :: ns => fmtDepth k n ++ fmtDepthList k ns
-  def fmtDepthFrags : Nat → List Frag → List FVar
-    | _, [] => []
-    | k, .mk _ ns :: fs => fmtDepthList k ns ++ fmtDepthFrags k fs
-end
-
-mutual
-  /-- no object below the first `k` levels carries an argument -/
-  def NoVarsBelow : Nat → Node → Bool
-    | 0, .obj r subs frags => r.vars.isEmpty && NoVarsBelowList 0 subs && NoVarsBelowFrags 0 frags
-    | k + 1, .obj _ subs frags => NoVarsBelowList k subs && NoVarsBelowFrags k frags
-    | _, .ref _ => true
-  def NoVarsBelowList : Nat → List Node → Bool
-    | _, [] => true
-    | k, n :: ns => NoVarsBelow k n && NoVarsBelowList k ns
-  def NoVarsBelowFrags : Nat → List Frag → Bool
-    | _, [] => true
-    | k, .mk _ ns :: fs => NoVarsBelowList k ns && NoVarsBelowFrags k fs
 end
 
 /-- the substitution (defs, vals) knows every variable of `L` with its recorded type and value -/
@@ -97,19 +70,10 @@ theorem resolveSels_append {defs vals} : ∀ (a b : List Sel) (x y : List RSel),
       simp only [List.cons_append, resolveSels, hr, ih b rs y hrs h2]
     · simp at h1
 
-theorem fmtDepthList_zero : ∀ (l : List Node), fmtDepthList 0 l = []
-  | [] => by simp [fmtDepthList]
-  | n :: ns => by simp [fmtDepthList, fmtDepth, fmtDepthList_zero ns]
-
-theorem fmtDepthFrags_zero : ∀ (l : List Frag), fmtDepthFrags 0 l = []
-  | [] => by simp [fmtDepthFrags]
-  | .mk _ ns :: fs => by simp [fmtDepthFrags, fmtDepthList_zero, fmtDepthFrags_zero fs]
-
-/-- the three facts a visit establishes -/
+/-- the two facts a visit establishes -/
 def Q (st : Store) (n : Node) (s : Sel) (n' : Node) : Prop :=
   (∀ defs vals, LookOK defs vals (fmtAll n') → resolveSel defs vals s = some (intended st n)) ∧
-  (fmtAll n').map (·.uname) = selVars s ∧
-  (∀ k, NoVarsBelow k n = true → fmtAll n' = fmtDepth k n')
+  (fmtAll n').map (·.uname) = selVars s
 
 theorem all3_resolve {st defs vals} : ∀ {ns ss ns'}, All3 (Q st) ns ss ns' →
     LookOK defs vals (fmtAllList ns') → resolveSels defs vals ss = some (intendedList st ns) := by
@@ -127,17 +91,7 @@ theorem all3_unames {st} : ∀ {ns ss ns'}, All3 (Q st) ns ss ns' →
   intro ns ss ns' h
   induction h with
   | nil => simp [fmtAllList, selVarsList]
-  | cons q _ ih => simp only [fmtAllList, selVarsList, List.map_append, q.2.1, ih]
-
-theorem all3_depth {st} (k : Nat) : ∀ {ns ss ns'}, All3 (Q st) ns ss ns' →
-    NoVarsBelowList k ns = true → fmtAllList ns' = fmtDepthList k ns' := by
-  intro ns ss ns' h
-  induction h with
-  | nil => intro _; simp [fmtAllList, fmtDepthList]
-  | cons q _ ih =>
-    intro hk
-    simp only [NoVarsBelowList, Bool.and_eq_true] at hk
-    simp only [fmtAllList, fmtDepthList, q.2.2 k hk.1, ih hk.2]
+  | cons q _ ih => simp only [fmtAllList, selVarsList, List.map_append, q.2, ih]
 
 theorem allF_resolve {st defs vals} : ∀ {fs ss fs'}, AllF (Q st) fs ss fs' →
     LookOK defs vals (fmtAllFrags fs') → resolveSels defs vals ss = some (intendedFrags st fs) := by
@@ -156,16 +110,6 @@ theorem allF_unames {st} : ∀ {fs ss fs'}, AllF (Q st) fs ss fs' →
   induction h with
   | nil => simp [fmtAllFrags, selVarsList]
   | cons q _ ih => simp only [fmtAllFrags, selVarsList, selVars, List.map_append, all3_unames q, ih]
-
-theorem allF_depth {st} (k : Nat) : ∀ {fs ss fs'}, AllF (Q st) fs ss fs' →
-    NoVarsBelowFrags k fs = true → fmtAllFrags fs' = fmtDepthFrags k fs' := by
-  intro fs ss fs' h
-  induction h with
-  | nil => intro _; simp [fmtAllFrags, fmtDepthFrags]
-  | cons q _ ih =>
-    intro hk
-    simp only [NoVarsBelowFrags, Bool.and_eq_true] at hk
-    simp only [fmtAllFrags, fmtDepthFrags, all3_depth k q hk.1, ih hk.2]
 
 theorem collectVars_nil_inv {idx used fv used'} (h : collectVars idx [] used = .ok (fv, used')) : fv = [] := by
   simp [collectVars] at h
@@ -194,7 +138,7 @@ theorem toAst_Q {st : Store} (hp : Pristine st) (idx : Nat) : ∀ fuel, VisitQ s
             simp at h
             obtain ⟨rfl, rfl, rfl, -⟩ := h
             have hfv := (collectVars_spec idx _ _ _ _ h1).2
-            refine ⟨rfl, ?_, ?_, ?_⟩
+            refine ⟨rfl, ?_, ?_⟩
             · intro defs vals hl
               simp only [fmtAll] at hl
               obtain ⟨l12, l3⟩ := LookOK.append.mp hl
@@ -204,19 +148,6 @@ theorem toAst_Q {st : Store} (hp : Pristine st) (idx : Nat) : ∀ fuel, VisitQ s
               simp [Bool.not_and]
             · simp only [fmtAll, selVars, List.map_append, all3_unames q2, allF_unames q3,
                 selVarsList_append, List.map_map, Function.comp_def, List.append_assoc]
-            · intro k hk
-              cases k with
-              | zero =>
-                simp only [NoVarsBelow, Bool.and_eq_true, List.isEmpty_iff] at hk
-                obtain ⟨⟨hv, hs⟩, hf⟩ := hk
-                rw [hv] at h1
-                have := collectVars_nil_inv h1
-                subst this
-                simp only [fmtAll, fmtDepth, all3_depth 0 q2 hs, allF_depth 0 q3 hf,
-                  fmtDepthList_zero, fmtDepthFrags_zero, List.append_nil]
-              | succ k =>
-                simp only [NoVarsBelow, Bool.and_eq_true] at hk
-                simp only [fmtAll, fmtDepth, all3_depth k q2 hk.1, allF_depth k q3 hk.2]
     | ref id =>
       unfold toAst at h
       split at h
@@ -237,11 +168,9 @@ theorem toAst_Q {st : Store} (hp : Pristine st) (idx : Nat) : ∀ fuel, VisitQ s
           | succ f' =>
             simp [toAst, collectVars_nil, mapAcc, mapFrags] at h1
             obtain ⟨rfl, rfl, -⟩ := h1
-            refine ⟨set_self _ _ _ hn, ?_, ?_, ?_⟩
+            refine ⟨set_self _ _ _ hn, ?_, ?_⟩
             · intro defs vals _
               simp [resolveSel, resolveArgs, resolveSels, intended, intendedRef, hn]
             · simp [fmtAll, selVars, selVarsList]
-            · intro k _
-              cases k <;> simp [fmtAll, fmtDepth]
 
 end Ariadne.C14
